@@ -15,6 +15,7 @@ RULES = {
     "C08.R4": "copy discipline: from_module copies weight and bias with copy_ under no_grad and returns the twin moved to the source device",
     "C08.R5": "walk: quantize iterates named_modules(), applies the filter, forwards **kwargs, and replaces through set_module_by_name only when a twin was built",
     "C08.R7": "weight source: qforward reads the weight only through self.qweight, a plain property that stores nothing and returns quantize_weight(self.weight, <module configuration>) on every unfrozen access (the twin is evaluated with the quantization of its current weight)",
+    "C08.R12": "a module that is already quantized is an `other module`: the quantized classes derive from the float ones, so the isinstance lookup of the registry selects them too - quantize_module (or the walk of quantize) excludes QModuleMixin instances before a twin is built",
     "C08.R11": "any input batch: a quantized implementation of a torch function that broadcasts a per-channel vector (scales, bias) against its output builds the broadcast shape from the rank of the operand - a literal shape such as `reshape(1, -1, 1, 1)` is only used under a guard on that rank (F.conv2d also takes unbatched 3-D inputs, F.linear any rank)",
     "C08.R8": "the float op the twin calls on (input, qweight, bias) is itself right: the quantized linear function returns (*batch, out) with every raw payload matched by its scale once and the bias added after scaling (the typing rules C07.R1/R2/R6, the accumulation table C07.R3, the primitive preconditions C07.R5 and the scale-product rule C07.R10, re-checked here)",
     "C08.R10": "the root of the tree is handled: named_modules() yields the model itself under the empty name, which cannot be replaced in its parent - quantize() must skip or reject it before it replaces anything or clears parameters",
@@ -130,6 +131,7 @@ def run(chk):
     # the twins compute through torch functions (F.linear, F.conv2d behind _conv_forward, F.layer_norm): a quantized implementation registered for one
     # of them that no rule describes leaves "each twin computes its float twin" undecided
     fixed_rank_broadcasts(chk)
+    already_quantized(chk)
     from .. import handrules
     for r_ in handrules.analyse(repo, chk.tier):
         if r_.pid == "C05" and r_.rule == "C05.R8" and r_.verdict == "unknown" and "function wrapper" in r_.detail:
@@ -708,3 +710,44 @@ def fixed_rank_broadcasts(chk):
                     "a QConv2d with quantized activations fed an unbatched (C, H, W) input: the output has shape (1, C_out, H', W') where the float module returns (C_out, H', W')")
     chk.ok("C08.R11", "handlers and function wrappers", f"{n} quantized implementations scanned: no per-channel broadcast through a literal rank")
     chk.floor("C08.R11", n, 20, "quantized implementations scanned")
+
+
+def already_quantized(chk):
+    """C08.R12."""
+    repo = chk.repo
+    mi_q, qm = repo.func("quantize_module")
+    mod = positional_params(qm)[0]
+    lookup_by_isinstance = any(isinstance(n, ast.Call) and U(n.func) == "isinstance" and n.args and U(n.args[0]) == mod for n in ast.walk(qm))
+    mixin = repo.cls("QModuleMixin")
+    derived = all(any(b.name != "QModuleMixin" for b in repo.mro(c)[1:] if hasattr(b, "name")) for c in repo.subclasses(mixin)) if hasattr(repo, "mro") else True
+    n = 0
+    flags = []
+    for p in paths_of(qm):
+        if p.end[0] == "return" and isinstance(p.end[1], ast.Call) and U(p.end[1].func).endswith(".from_module"):
+            n += 1
+            flags.append(path_facts(p).get(f"isinstance({mod}, QModuleMixin)") is False)
+    excluded = bool(flags) and all(flags)
+    # or the walk of quantize() skips them
+    mi_w, q = repo.func("quantize")
+    skip_in_walk = False
+    for lp in [x for x in q.body if isinstance(x, ast.For)]:
+        for bp in loop_body_paths(q, lp):
+            calls = [ef for ef in bp.effects if ef[0] in ("expr", "store") and any(isinstance(x, ast.Call) and U(x.func) == "quantize_module" for x in ast.walk(ef[1] if ef[0] == "expr" else ef[3]))]
+            conds_calls = any(isinstance(x, ast.Call) and U(x.func) == "quantize_module" for c, _, _ in bp.conds for x in ast.walk(c))
+            if calls or conds_calls:
+                f = path_facts(bp)
+                if any(v is False and k.startswith("isinstance(") and k.endswith(", QModuleMixin)") for k, v in f.items()):
+                    skip_in_walk = True
+    ok = (n >= 1 and excluded) or skip_in_walk or not lookup_by_isinstance
+    chk.require("C08.R12", f"{mi_q.rel}:{qm.lineno}", ok, f"quantize_module / quantize leave QModuleMixin instances alone before the registry lookup by isinstance (excluded in quantize_module: {excluded}, skipped in the walk: {skip_in_walk})",
+                "quantize_module", "already quantized module quantized again",
+                "quantize(model, modules=[a], weights=qint4, activations=qint8); calibrate; quantize(model, weights=qint8) to cover the remaining layers: `a` is rebuilt with qint8 weights, no activations and scales reset to one, and the old object's weight is None")
+    chk.floor("C08.R12", n, 1, "quantize_module paths that build a twin")
+    # the same lookup selects every SUBCLASS of a registered float class: one that overrides forward() (a weight-standardised Conv2d, a channel-first
+    # LayerNorm) is replaced by the plain twin, which computes the base class's function with the base class's hyper-parameters
+    exact = any(isinstance(nd, ast.Compare) and len(nd.ops) == 1 and isinstance(nd.ops[0], (ast.Is, ast.Eq)) and U(nd.left) in (f"type({mod})", f"{mod}.__class__") for nd in ast.walk(qm)) or \
+        any(isinstance(nd, ast.Subscript) and U(nd.slice) in (f"type({mod})", f"{mod}.__class__") for nd in ast.walk(qm)) or \
+        any("forward" in U(nd) and ("__dict__" in U(nd) or "is " in U(nd)) for nd in ast.walk(qm) if isinstance(nd, ast.Compare))
+    chk.require("C08.R12", f"{mi_q.rel}:{qm.lineno}", not lookup_by_isinstance or exact, "quantize_module selects a module by its exact class (or checks that forward() is the registered class's)", "quantize_module",
+                "subclass with its own forward replaced by the plain twin",
+                "a weight-standardised StdConv2d(nn.Conv2d) becomes a QConv2d (error 17.2 on outputs of magnitude 19.7); a channel-first LayerNorm2d(nn.LayerNorm) becomes a QLayerNorm that normalises the last dimension instead of the channels")
